@@ -23,7 +23,8 @@ EXPLANATION = (
     'constant evaluation over the 8-bit state domain, getMateInN / getMatedInN / isDraw are pairwise disjoint and false on '
     'INVALID, UNINITIALIZED, UNKNOWN and every REMAINING_N, and get(set(n)) == n; (4) the reserved region is large enough for the '
     'largest table the men guard admits, aligned to slots and buckets, guarded by the size test, and placed at the top of the table.'
-    ' (5) probeDTM answers only for positions without castling rights (the castle mask is tested in the probe or in the position import it requires).')
+    ' (5) probeDTM answers only for positions without castling rights (the castle mask is tested in the probe or in the position import it requires).'
+    ' Added later; (7) every adjacent-duplicate filter of the generator compares each element that has a predecessor with it, and the successor / predecessor lists are sorted before they are returned.')
 UNDECIDED = 'exactness of the distance-to-mate values themselves (retrograde analysis over millions of positions is value-level).'
 ASSUMPTIONS = ['8-bit two\'s complement storage of PositionValue::State (S8)',
                'TBPosition index arithmetic (20*64^(N-1) positions) is read from the constructor\'s constants']
@@ -38,6 +39,7 @@ def run(fb, rep, tier):
     c4_region(fb, rep)
     c5_probe_scope(fb, rep, 'C12.5')
     c6_block_skip(fb, rep, 'C12.6')
+    c7_dedup_filters(fb, rep, 'C12.7')
 
 
 # ----------------------------------------------------------------------------- .1
@@ -757,3 +759,100 @@ def _s(t):
     while isinstance(t, dict) and t.get('k') == 'cast':
         t = t.get('e')
     return t
+
+
+# ----------------------------------------------------------------------------- .7
+
+def c7_dedup_filters(fb, rep, clause):
+    """K12 adjacent-duplicate filters.  Successor and predecessor lists are sorted canonical indices; symmetric positions
+    yield the same index twice, and both the successor count (REMAINING_N) and the retrograde decrements must count
+    each distinct neighbour once.  Every filter `i > c && L[i] == L[i - k]` must make the comparison for *every* i >= k:
+    c == k - 1 exactly (smaller reads before the list, larger lets a duplicate through and the counter never reaches
+    zero: a lost position stays a draw)."""
+    cands = [f for f in fb.funcs.values() if f.has_cfg and f.sname == 'TBGenerator::generate']
+    if rep.need(clause, cands, 'TBGenerator::generate') is None:
+        return
+    n = 0
+    for f in sorted(cands, key=lambda x: x.name):
+        k_site = 0
+        for bid, blk in sorted(f.blocks.items()):
+            t = blk.get('term') or {}
+            if t.get('c') != 'IfStmt' or t.get('cond') is None or bid in f.dead:
+                continue
+            conj = []
+            todo = [t['cond']]
+            while todo:
+                a = _strip12(todo.pop())
+                if isinstance(a, dict) and a.get('k') == 'bin' and a.get('op') == '&&':
+                    todo += [a.get('r'), a.get('l')]
+                else:
+                    conj.append(a)
+            for c in conj:
+                eq = _adjacent_eq(c)
+                if eq is None:
+                    continue
+                lst, ivar, k = eq
+                k_site += 1
+                n += 1
+                # the index guard among the other conjuncts
+                bound = None
+                for g in conj:
+                    if isinstance(g, dict) and g.get('k') == 'bin' and g.get('op') in ('>', '>=') and (_strip12(g.get('l')) or {}).get('id') == ivar and 'cv' in (_strip12(g.get('r')) or {}):
+                        bound = _strip12(g['r'])['cv'] + (1 if g['op'] == '>' else 0)      # comparison made for i >= bound
+                rep.ob(clause, 'K12 adjacent-duplicate filter', '%s: duplicate filter #%d compares every element that has a predecessor with it' % (f.name.replace('TBGenerator', 'TBGen'), k_site),
+                       bound == k, '%s:%s' % (f.file, t.get('ln') or f.line), 'compares L[i] with L[i-%d] for i >= %s' % (k, bound), f.sname)
+    rep.floor(clause, 'adjacent-duplicate filters in TBGenerator::generate', n, 6)
+    # adjacent comparison finds all duplicates only in a sorted list: both list producers sort before returning
+    for nm in ('TBPosition::getMoves', 'TBPosition::getUnMoves'):
+        g = fb.find1(nm)
+        if rep.need(clause, g, nm) is None:
+            continue
+        pid = (g.d.get('params') or [{}])[0].get('id')
+
+        def is_sort(e, _pid=pid):
+            return e is not None and e.get('k') == 'call' and cname(e).split('::')[-1] == 'sort' and (_strip12(e.get('recv')) or {}).get('id') == _pid
+
+        def is_add(e, _pid=pid):
+            return e is not None and e.get('k') == 'call' and cname(e).split('::')[-1] in ('addMove', 'add', 'push_back') and (_strip12(e.get('recv')) or {}).get('id') == _pid
+        adds = [(b, i) for b, i, e in g.events() if is_add(e)]
+        unsorted = [pos for pos in adds if g.path_avoiding(pos, R.at_exit, is_sort) is not None]
+        rep.ob(clause, 'K2 must-pass-through', '%s sorts the list after the last element was added, on every path' % nm.split('::')[-1], bool(adds) and not unsorted, g.where,
+               '%d additions, %d can reach the exit unsorted' % (len(adds), len(unsorted)), g.sname)
+
+
+def _strip12(t):
+    while isinstance(t, dict) and t.get('k') == 'cast':
+        t = t.get('e')
+    return t
+
+
+def _adjacent_eq(c):
+    """(list id, index var id, k) if c is `L[i] == L[i - k]` (either order)"""
+    c = _strip12(c)
+    if not isinstance(c, dict):
+        return None
+    if c.get('k') == 'bin' and c.get('op') == '==':
+        sides = [c.get('l'), c.get('r')]
+    elif c.get('k') == 'call' and c.get('op') == '==':
+        sides = ([c['recv']] if c.get('recv') is not None else []) + c.get('args', [])
+    else:
+        return None
+    if len(sides) != 2:
+        return None
+    acc = []
+    for s_ in sides:
+        s_ = _strip12(s_)
+        if isinstance(s_, dict) and s_.get('k') == 'call' and s_.get('op') == '[]' and s_.get('recv') is not None and s_.get('args'):
+            acc.append((_strip12(s_['recv']), _strip12(s_['args'][0])))
+        elif isinstance(s_, dict) and s_.get('k') == 'idx':
+            acc.append((_strip12(s_.get('b')), _strip12(s_.get('i'))))
+        else:
+            return None
+    (l0, i0), (l1, i1) = acc
+    if not (isinstance(l0, dict) and isinstance(l1, dict) and l0.get('k') == 'var' and l0.get('id') == l1.get('id')):
+        return None
+    for a, b in ((i0, i1), (i1, i0)):
+        if isinstance(a, dict) and a.get('k') == 'var' and isinstance(b, dict) and b.get('k') == 'bin' and b.get('op') == '-' and \
+                (_strip12(b.get('l')) or {}).get('id') == a.get('id') and 'cv' in (_strip12(b.get('r')) or {}):
+            return (l0.get('id'), a.get('id'), _strip12(b['r'])['cv'])
+    return None
